@@ -36,8 +36,11 @@ static void on_vtalrm(int) {
 static void arm_watchdog(int cpu_seconds) {
     struct sigaction sa; memset(&sa, 0, sizeof sa); sa.sa_handler = on_vtalrm; sigaction(SIGVTALRM, &sa, nullptr);
     struct itimerval it; memset(&it, 0, sizeof it); it.it_value.tv_sec = cpu_seconds; setitimer(ITIMER_VIRTUAL, &it, nullptr);
+    // wall-clock backstop for a harness deadlock (all threads parked burn no CPU); generous so machine load cannot trip it
+    sigaction(SIGALRM, &sa, nullptr);
+    it.it_value.tv_sec = cpu_seconds * 20 + 60; setitimer(ITIMER_REAL, &it, nullptr);
 }
-static void disarm_watchdog() { struct itimerval it; memset(&it, 0, sizeof it); setitimer(ITIMER_VIRTUAL, &it, nullptr); }
+static void disarm_watchdog() { struct itimerval it; memset(&it, 0, sizeof it); setitimer(ITIMER_VIRTUAL, &it, nullptr); setitimer(ITIMER_REAL, &it, nullptr); }
 
 static std::string slurp(const std::string &path) { std::ifstream f(path); std::stringstream ss; ss << f.rdbuf(); return ss.str(); }
 static bool load_plan(const std::string &path, Plan &p) {
